@@ -74,6 +74,8 @@ type Query struct {
 	Alias   bool `json:"alias,omitempty"`   // FROM t AS q, columns written q.col
 	Qualify bool `json:"qualify,omitempty"` // columns written t.col
 	Join    bool `json:"join,omitempty"`    // FROM t JOIN u ON t.id = u.ref
+	// Sub (MySQL rewrite layer only): the statement is wrapped as SELECT id, s FROM t WHERE id IN (SELECT id FROM t ... WHERE cond)
+	Sub bool `json:"sub,omitempty"`
 	Where   Cond `json:"where"`
 	// sessions
 	Ext       bool   `json:"ext,omitempty"`
@@ -246,6 +248,9 @@ func genCase(t *rapid.T, o genOpts) Case {
 		c.Q.Qualify = rapid.IntRange(0, 3).Draw(t, "qualify") == 3
 	}
 	c.Q.Join = rapid.IntRange(0, 4).Draw(t, "join") == 4
+	// only with the same FROM in both SELECTs: the rewriter resolves columns of a sub-query against the outer
+	// statement's tables, a sub-query over other tables / aliases is passed on unchanged (not claimed as supported)
+	c.Q.Sub = !c.Q.Join && !c.Q.Alias && rapid.IntRange(0, 4).Draw(t, "sub") == 4
 	c.UConf = rapid.Bool().Draw(t, "uconf")
 	// ---- stored plaintexts
 	npool := rapid.IntRange(1, 3).Draw(t, "npool")
@@ -588,6 +593,9 @@ func classesOf(c Case, db string) []string {
 	}
 	if c.Q.Join {
 		cl = append(cl, "from:join")
+	}
+	if c.Q.Sub {
+		cl = append(cl, "mysql:condition-in-sub-query")
 	}
 	cl = append(cl, "where:"+shapeOf(c.Q.Where))
 	walkCond(c.Q.Where, func(k Cond) {
